@@ -1467,10 +1467,9 @@ def box_text(box):
     elif isinstance(box, boxes.ParentBox):
         return ''.join(
             child.text for child in box.descendants()
-            if not child.element_tag.endswith('::before') and
-            not child.element_tag.endswith('::after') and
-            not child.element_tag.endswith('::marker') and
-            isinstance(child, boxes.TextBox))
+            if isinstance(child, boxes.TextBox) and
+            not (child.element_tag or '').endswith(
+                ('::before', '::after', '::marker')))
     return ''
 
 
